@@ -235,7 +235,9 @@ def build(rng, C, kind, degs, nc, rdom, phi_kind, f_kind, phi_space=None):
         phi.coeffs[:] = 0.0
         phi.coeffs[i0, :] = [rng.uniform(0.5, 1.5) * rw * rr for rr in np.linspace(rdom[0], rdom[1], phi.coeffs.shape[1])]
     it = SplineInterpolator2D(bq, br)
-    if f_kind == 'random':
+    if f_kind == 'zero':
+        fv = np.zeros((len(q), len(r)))
+    elif f_kind == 'random':
         fv = np.array([[rng.uniform(-1, 1) for _ in range(len(r))] for _ in range(len(q))])
     elif f_kind == 'smooth':
         fv = np.exp(-((Rf - rm) / (0.3 * rw)) ** 2) * (1 + 0.5 * np.cos(Qf + rng.uniform(0, TWOPI))) + rng.uniform(-1, 1)
@@ -322,6 +324,8 @@ def correspondence(chk, drv, C):
         if not explicit and it % 12 in (2, 8) and it >= 6:
             phi_kind = 'blob'
         f_kind = rng.choice(['random', 'smooth', 'feq'])
+        if it % 8 == 5:
+            f_kind = 'zero'          # an empty plane: nodes whose foot leaves the radial domain still take the boundary value
         B0 = rng.choice([1.0, 1.0, 2.0, 0.75])
         v = rng.uniform(-4, 4)
         bq, br, q, r, phi, interp, fv, omega = build(rng, C, kind, degs, nc, rdom, phi_kind, f_kind, phi_space)
